@@ -1,25 +1,497 @@
-//! C08 — not built yet (stub).
+//! C08 — filters follow the documented filter semantics.
+//!
+//! Case = (random schema with keyword/i64/f64 fields and nested objects up to three levels, a
+//! corpus of valid documents with arrays of parent objects each holding child arrays, a list of
+//! random And/Or/Not/Nested filter trees).  The corpus is indexed once with the real code; every
+//! filter is run as `search(match_all, filter)` and turned into per-document pass/fail.
+//!   * correspondence: per document, the real decision vs `SL.Filter.Col.passes ∘ flatten` (the
+//!     model of the columns and of `query/filters.rs`);
+//!   * finder (implementation alone): per document, the real decision vs the documented semantics
+//!     evaluated on the JSON tree by the harness's own oracle `spec_eval` (no model involved).
+//! The driver also returns `Spec.passes`; wherever the hypotheses of `flatten_sound_partial` hold
+//! (`single`, `plain`) the two model results must coincide (an instance check of the theorem).
+use super::c15::{gen_schema, gen_valid_doc, LeafS, NestedS, PropS, SchemaOpts, SchemaS, K, KWS};
+use crate::idx;
 use crate::proto::Driver;
 use crate::rng::Rng;
 use crate::summary::Summary;
+use crate::util::scratch;
 use crate::{Prop, Tier};
-use serde_json::{json, Value};
+use serde_json::{json, Map, Value};
+use std::collections::BTreeSet;
 
-pub struct Stub;
-pub static P: Stub = Stub;
+pub struct C08;
+pub static P: C08 = C08;
 
-impl Prop for Stub {
+// ---------------------------------------------------------------------------------------------
+// the documented semantics on the JSON tree (harness oracle, independent of the model)
+// ---------------------------------------------------------------------------------------------
+
+#[derive(Clone, Copy)]
+enum Ctx<'a> {
+  Top(&'a SchemaS),
+  In(&'a NestedS),
+}
+
+enum PropRef<'a> {
+  Leaf(&'a LeafS),
+  Obj(&'a NestedS),
+}
+
+fn find_prop<'a>(ctx: Ctx<'a>, name: &str) -> Option<PropRef<'a>> {
+  match ctx {
+    Ctx::Top(s) => s.find_flat(name).map(PropRef::Leaf).or_else(|| s.find_nested(name).map(PropRef::Obj)),
+    Ctx::In(n) => n.find(name).map(|p| match p {
+      PropS::Leaf(l) => PropRef::Leaf(l),
+      PropS::Obj(c) => PropRef::Obj(c),
+    }),
+  }
+}
+
+static EMPTY: std::sync::OnceLock<Map<String, Value>> = std::sync::OnceLock::new();
+fn empty() -> &'static Map<String, Value> {
+  EMPTY.get_or_init(Map::new)
+}
+
+/// the objects a nested value holds; a `null` element counts as an object without properties
+fn objs_of(v: &Value) -> Vec<&Map<String, Value>> {
+  match v {
+    Value::Array(a) => a.iter().map(|e| e.as_object().unwrap_or(empty())).collect(),
+    Value::Object(m) => vec![m],
+    _ => Vec::new(),
+  }
+}
+
+fn scalars(v: &Value) -> Vec<&Value> {
+  match v {
+    Value::Array(a) => a.iter().collect(),
+    Value::Null => Vec::new(),
+    x => vec![x],
+  }
+}
+
+/// one value of a field of kind `kind` against a leaf clause
+fn clause_test(kind: K, clause: &str, body: &Value, x: &Value) -> bool {
+  let ci = |a: &str, b: &str| a.to_lowercase() == b.to_lowercase();
+  match clause {
+    "KeywordEq" => kind == K::Keyword && x.as_str().map(|s| ci(s, body["value"].as_str().unwrap_or(""))).unwrap_or(false),
+    "KeywordIn" => {
+      kind == K::Keyword
+        && x.as_str().map(|s| body["values"].as_array().map(|vs| vs.iter().any(|v| ci(s, v.as_str().unwrap_or("")))).unwrap_or(false)).unwrap_or(false)
+    }
+    "I64Range" => kind == K::I64 && x.as_i64().map(|n| body["min"].as_i64().unwrap_or(0) <= n && n <= body["max"].as_i64().unwrap_or(0)).unwrap_or(false),
+    "F64Range" => kind == K::F64 && x.as_f64().map(|n| body["min"].as_f64().unwrap_or(0.0) <= n && n <= body["max"].as_f64().unwrap_or(0.0)).unwrap_or(false),
+    _ => false,
+  }
+}
+
+/// some value reachable from `obj` along the dotted `path` satisfies the clause (fast fields only)
+fn leaf_passes(ctx: Ctx, obj: &Map<String, Value>, path: &[&str], clause: &str, body: &Value) -> bool {
+  match path {
+    [] => false,
+    [a] => match find_prop(ctx, a) {
+      Some(PropRef::Leaf(l)) if l.fast => obj.get(*a).map(|v| scalars(v).iter().any(|x| clause_test(l.kind, clause, body, x))).unwrap_or(false),
+      _ => false,
+    },
+    [r, rest @ ..] => match find_prop(ctx, r) {
+      Some(PropRef::Obj(n)) => obj.get(*r).map(|v| objs_of(v).iter().any(|o| leaf_passes(Ctx::In(n), o, rest, clause, body))).unwrap_or(false),
+      _ => false,
+    },
+  }
+}
+
+fn single_key(f: &Value) -> (&str, &Value) {
+  f.as_object().and_then(|m| m.iter().next()).map(|(k, v)| (k.as_str(), v)).unwrap_or(("", &Value::Null))
+}
+
+/// one object of child `path` of `obj` satisfies `k`
+fn bind(ctx: Ctx, obj: &Map<String, Value>, path: &str, k: &dyn Fn(Ctx, &Map<String, Value>) -> bool) -> bool {
+  match find_prop(ctx, path) {
+    Some(PropRef::Obj(n)) => obj.get(path).map(|v| objs_of(v).iter().any(|o| k(Ctx::In(n), o))).unwrap_or(false),
+    _ => false,
+  }
+}
+
+fn spec_eval(ctx: Ctx, obj: &Map<String, Value>, f: &Value) -> bool {
+  let (tag, body) = single_key(f);
+  match tag {
+    "KeywordEq" | "KeywordIn" | "I64Range" | "F64Range" => {
+      let field = body["field"].as_str().unwrap_or("");
+      let path: Vec<&str> = field.split('.').collect();
+      leaf_passes(ctx, obj, &path, tag, body)
+    }
+    "Nested" => bind(ctx, obj, body["path"].as_str().unwrap_or(""), &|c, o| spec_eval(c, o, &body["filter"])),
+    "And" => {
+      let fs = body.as_array().cloned().unwrap_or_default();
+      let mut paths: Vec<String> = Vec::new();
+      for g in fs.iter() {
+        let (t, b) = single_key(g);
+        if t == "Nested" {
+          let p = b["path"].as_str().unwrap_or("").to_string();
+          if !paths.contains(&p) {
+            paths.push(p);
+          }
+        } else if !spec_eval(ctx, obj, g) {
+          return false;
+        }
+      }
+      // sibling nested clauses on one path bind the same object
+      paths.iter().all(|p| {
+        let inner: Vec<Value> = fs
+          .iter()
+          .filter_map(|g| {
+            let (t, b) = single_key(g);
+            if t == "Nested" && b["path"].as_str() == Some(p.as_str()) {
+              Some(b["filter"].clone())
+            } else {
+              None
+            }
+          })
+          .collect();
+        let grouped = json!({ "And": inner });
+        bind(ctx, obj, p, &|c, o| spec_eval(c, o, &grouped))
+      })
+    }
+    "Or" => body.as_array().map(|fs| fs.iter().any(|g| spec_eval(ctx, obj, g))).unwrap_or(false),
+    "Not" => !spec_eval(ctx, obj, body),
+    _ => false,
+  }
+}
+
+pub fn spec_passes(s: &SchemaS, doc: &Value, f: &Value) -> bool {
+  doc.as_object().map(|m| spec_eval(Ctx::Top(s), m, f)).unwrap_or(false)
+}
+
+// ---------------------------------------------------------------------------------------------
+// signature predicates (evaluated on the failing document and filter, no model)
+// ---------------------------------------------------------------------------------------------
+
+/// dotted nested paths with at least two parent objects that carry a non-null value
+fn collision_paths(s: &SchemaS, doc: &Value) -> BTreeSet<String> {
+  fn walk(n: &NestedS, path: &str, parents: &[&Map<String, Value>], out: &mut BTreeSet<String>) {
+    for p in n.props.iter() {
+      if let PropS::Obj(c) = p {
+        let cpath = format!("{path}.{}", c.name);
+        let carried: Vec<&Value> = parents.iter().filter_map(|o| o.get(&c.name)).filter(|v| !v.is_null()).collect();
+        if carried.len() >= 2 {
+          out.insert(cpath.clone());
+        }
+        let objs: Vec<&Map<String, Value>> = carried.iter().flat_map(|v| objs_of(v)).collect();
+        walk(c, &cpath, &objs, out);
+      }
+    }
+  }
+  let mut out = BTreeSet::new();
+  if let Some(m) = doc.as_object() {
+    for n in s.nested.iter() {
+      if let Some(v) = m.get(&n.name) {
+        if !v.is_null() {
+          walk(n, &n.name, &objs_of(v), &mut out);
+        }
+      }
+    }
+  }
+  out
+}
+
+/// dotted paths of the nested clauses that sit inside another nested clause
+fn inner_nested_paths(f: &Value, base: &str, out: &mut BTreeSet<String>) {
+  let (tag, body) = single_key(f);
+  match tag {
+    "Nested" => {
+      let p = body["path"].as_str().unwrap_or("");
+      let full = if base.is_empty() { p.to_string() } else { format!("{base}.{p}") };
+      if !base.is_empty() {
+        out.insert(full.clone());
+      }
+      inner_nested_paths(&body["filter"], &full, out);
+    }
+    "And" | "Or" => {
+      for g in body.as_array().cloned().unwrap_or_default().iter() {
+        inner_nested_paths(g, base, out);
+      }
+    }
+    "Not" => inner_nested_paths(body, base, out),
+    _ => {}
+  }
+}
+
+fn mismatch_sig(s: &SchemaS, doc: &Value, f: &Value) -> &'static str {
+  let coll = collision_paths(s, doc);
+  let mut used = BTreeSet::new();
+  inner_nested_paths(f, "", &mut used);
+  // a nested-in-nested clause on (or below) a path whose child objects come from several parents
+  let hit = used.iter().any(|u| coll.iter().any(|c| u == c || u.starts_with(&format!("{c}."))));
+  if hit {
+    "nested.child-index-collision"
+  } else {
+    "filter.differs-from-documented-semantics"
+  }
+}
+
+// ---------------------------------------------------------------------------------------------
+// filter generator
+// ---------------------------------------------------------------------------------------------
+
+fn flip_case(rng: &mut Rng, s: &str) -> String {
+  match rng.below(4) {
+    0 => s.to_uppercase(),
+    1 => s.to_lowercase(),
+    _ => s.to_string(),
+  }
+}
+
+fn gen_clause(rng: &mut Rng, field: &str, kind: K) -> Value {
+  // mostly the clause type that fits the field, sometimes another one (typed semantics)
+  let pick = if rng.chance(1, 8) { rng.below(4) } else { match kind { K::Keyword | K::Text => rng.below(2), K::I64 => 2, K::F64 => 3 } };
+  match pick {
+    0 => {
+      let w = *rng.pick(&KWS);
+      json!({"KeywordEq": {"field": field, "value": flip_case(rng, w)}})
+    }
+    1 => {
+      let n = 1 + rng.below(3);
+      let vs: Vec<String> = (0..n)
+        .map(|_| {
+          let w = *rng.pick(&KWS);
+          flip_case(rng, w)
+        })
+        .collect();
+      json!({"KeywordIn": {"field": field, "values": vs}})
+    }
+    2 => {
+      let a = rng.range(-4, 9);
+      json!({"I64Range": {"field": field, "min": a, "max": a + rng.range(0, 4)}})
+    }
+    _ => {
+      let a = rng.range(-9, 24) as f64 * 0.25;
+      json!({"F64Range": {"field": field, "min": a, "max": a + rng.range(0, 8) as f64 * 0.25}})
+    }
+  }
+}
+
+fn leaves_of(ctx: Ctx) -> Vec<&LeafS> {
+  match ctx {
+    Ctx::Top(s) => s.flat.iter().collect(),
+    Ctx::In(n) => n.props.iter().filter_map(|p| if let PropS::Leaf(l) = p { Some(l) } else { None }).collect(),
+  }
+}
+
+fn children_of(ctx: Ctx) -> Vec<&NestedS> {
+  match ctx {
+    Ctx::Top(s) => s.nested.iter().collect(),
+    Ctx::In(n) => n.props.iter().filter_map(|p| if let PropS::Obj(c) = p { Some(c) } else { None }).collect(),
+  }
+}
+
+/// all dotted leaf paths below a nested field (for direct dotted filters at the top level)
+fn dotted_leaves(n: &NestedS, base: &str, out: &mut Vec<(String, K)>) {
+  for p in n.props.iter() {
+    match p {
+      PropS::Leaf(l) => out.push((format!("{base}.{}", l.name), l.kind)),
+      PropS::Obj(c) => dotted_leaves(c, &format!("{base}.{}", c.name), out),
+    }
+  }
+}
+
+fn gen_leaf_clause(rng: &mut Rng, ctx: Ctx) -> Value {
+  if let Ctx::Top(s) = ctx {
+    if !s.nested.is_empty() && rng.chance(1, 6) {
+      let mut d = Vec::new();
+      for n in s.nested.iter() {
+        dotted_leaves(n, &n.name, &mut d);
+      }
+      if !d.is_empty() {
+        let (p, k) = rng.pick(&d).clone();
+        return gen_clause(rng, &p, k);
+      }
+    }
+  }
+  let ls = leaves_of(ctx);
+  if ls.is_empty() || rng.chance(1, 25) {
+    return gen_clause(rng, "nosuch", K::Keyword);
+  }
+  let l = *rng.pick(&ls);
+  gen_clause(rng, &l.name, l.kind)
+}
+
+fn gen_nested_clause(rng: &mut Rng, ctx: Ctx, depth: usize) -> Option<Value> {
+  let cs = children_of(ctx);
+  if cs.is_empty() {
+    return None;
+  }
+  let c = *rng.pick(&cs);
+  Some(json!({"Nested": {"path": c.name, "filter": gen_filter(rng, Ctx::In(c), depth.saturating_sub(1))}}))
+}
+
+fn gen_filter(rng: &mut Rng, ctx: Ctx, depth: usize) -> Value {
+  let has_children = !children_of(ctx).is_empty();
+  let roll = rng.below(if depth == 0 { 4 } else { 12 });
+  match roll {
+    0 | 1 | 2 => gen_leaf_clause(rng, ctx),
+    3 | 4 | 5 | 6 if has_children => gen_nested_clause(rng, ctx, depth).unwrap(),
+    7 | 8 => {
+      // And, with a bias towards sibling nested clauses on one path
+      let n = 2 + rng.below(2);
+      let mut fs: Vec<Value> = Vec::new();
+      let cs = children_of(ctx);
+      if !cs.is_empty() && rng.chance(2, 3) {
+        let c = *rng.pick(&cs);
+        for _ in 0..n {
+          if rng.chance(3, 4) {
+            fs.push(json!({"Nested": {"path": c.name, "filter": gen_filter(rng, Ctx::In(c), depth.saturating_sub(1))}}));
+          } else {
+            fs.push(gen_filter(rng, ctx, depth.saturating_sub(1)));
+          }
+        }
+      } else {
+        for _ in 0..n {
+          fs.push(gen_filter(rng, ctx, depth.saturating_sub(1)));
+        }
+      }
+      json!({ "And": fs })
+    }
+    9 => {
+      let n = 2 + rng.below(2);
+      json!({"Or": (0..n).map(|_| gen_filter(rng, ctx, depth.saturating_sub(1))).collect::<Vec<_>>()})
+    }
+    10 => json!({"Not": gen_filter(rng, ctx, depth.saturating_sub(1))}),
+    11 => json!({ "And": [] }),
+    _ => gen_leaf_clause(rng, ctx),
+  }
+}
+
+fn has_nested_in_nested(f: &Value) -> bool {
+  let mut used = BTreeSet::new();
+  inner_nested_paths(f, "", &mut used);
+  !used.is_empty()
+}
+
+// ---------------------------------------------------------------------------------------------
+
+/// per filter: ids of the documents the real index returns for `match_all` + filter
+fn real_decisions(schema: &Value, docs: &[Value], filters: &[Value]) -> Result<Vec<Result<BTreeSet<String>, String>>, String> {
+  let dir = scratch();
+  let index = idx::create(dir.path(), schema, true)?;
+  // two commits: the documents end up in two segments (the property is per document)
+  let half = docs.len() / 2;
+  if half > 0 {
+    idx::add_commit(&index, &docs[..half])?;
+  }
+  idx::add_commit(&index, &docs[half..])?;
+  let reader = index.reader().map_err(|e| format!("reader: {e}"))?;
+  let mut out = Vec::new();
+  for f in filters {
+    let req = json!({"query": {"type": "match_all"}, "filter": f, "limit": 10000, "execution": "bm25"});
+    out.push(match idx::search(&reader, &req) {
+      idx::Outcome::Ok(v) => Ok(idx::hit_ids(&v).into_iter().collect()),
+      idx::Outcome::Err(e) => Err(format!("error: {e}")),
+      idx::Outcome::Panic(e) => Err(format!("panic: {e}")),
+    });
+  }
+  Ok(out)
+}
+
+impl Prop for C08 {
   fn id(&self) -> &'static str {
     "C08"
   }
   fn rule(&self) -> &'static str {
-    "stub"
+    "case = (random schema: keyword/i64/f64 flat fields and nested objects up to 3 levels, mostly fast; 6-14 valid documents with arrays of parent objects each holding child arrays, empty arrays, nulls where nullable, multi-valued leaves; 8 random And/Or/Not/Nested filter trees incl. sibling nested clauses on one path, nested-in-nested, dotted top-level paths, mismatched clause types, case variants); the corpus is indexed once (two segments) and every filter is run as match_all+filter; one evaluation = one (corpus, filter) pair; non-trivial = the filter passes at least one and fails at least one document of the corpus; distinct = distinct (schema, docs, filter) JSON"
   }
-  fn count(&self, _tier: Tier) -> usize {
-    0
+  fn count(&self, tier: Tier) -> usize {
+    tier.pick(160, 6000)
   }
-  fn gen(&self, _rng: &mut Rng, _tier: Tier, _i: usize) -> Value {
-    json!(null)
+  fn gen(&self, rng: &mut Rng, _tier: Tier, i: usize) -> Value {
+    let o = SchemaOpts { fast_8: 7, max_depth: 3, text: false };
+    let mut s = gen_schema(rng, &o);
+    // filters need something to look at
+    for _ in 0..4 {
+      if !s.nested.is_empty() && !s.flat.is_empty() {
+        break;
+      }
+      s = gen_schema(rng, &o);
+    }
+    let nd = 6 + rng.below(9);
+    let docs: Vec<Value> = (0..nd).map(|d| gen_valid_doc(rng, &s, &format!("c{i}d{d}"))).collect();
+    let filters: Vec<Value> = (0..8).map(|_| gen_filter(rng, Ctx::Top(&s), 3)).collect();
+    json!({"schema": s.to_json(), "docs": docs, "filters": filters})
   }
-  fn run_case(&self, _drv: &mut Driver, _case: &Value, _s: &mut Summary) {}
+  fn run_case(&self, drv: &mut Driver, case: &Value, s: &mut Summary) {
+    let schema_json = &case["schema"];
+    let schema = SchemaS::from_json(schema_json);
+    let docs: Vec<Value> = case["docs"].as_array().cloned().unwrap_or_default();
+    let filters: Vec<Value> = case["filters"].as_array().cloned().unwrap_or_default();
+    let ids: Vec<String> = docs.iter().map(|d| d["_id"].as_str().unwrap_or("").to_string()).collect();
+    let real = match real_decisions(schema_json, &docs, &filters) {
+      Ok(r) => r,
+      Err(e) => {
+        s.case(case, false);
+        s.disagree("setup", case, json!({"error": e}), json!("valid documents must be indexable"));
+        return;
+      }
+    };
+    let multi: Vec<bool> = docs.iter().map(|d| !collision_paths(&schema, d).is_empty()).collect();
+    s.add("docs:total", docs.len() as u64);
+    s.add("docs:several-parents-with-children", multi.iter().filter(|b| **b).count() as u64);
+    for (f, r) in filters.iter().zip(real.iter()) {
+      let pair = json!({"schema": schema_json, "docs": docs, "filter": f});
+      let small = |d: &Value| json!({"schema": schema_json, "docs": [d], "filters": [f]});
+      let hits = match r {
+        Ok(h) => h,
+        Err(e) => {
+          s.case(&pair, false);
+          s.fail("filter.search-failed", "match_all + filter did not return a result", &json!({"schema": schema_json, "docs": docs, "filters": [f]}), json!({"outcome": e}));
+          continue;
+        }
+      };
+      let real_pass: Vec<bool> = ids.iter().map(|id| hits.contains(id)).collect();
+      let np = real_pass.iter().filter(|b| **b).count();
+      s.case(&pair, np > 0 && np < docs.len());
+      s.count(if has_nested_in_nested(f) { "filter:nested-in-nested" } else if f.to_string().contains("\"Nested\"") { "filter:nested" } else { "filter:flat" });
+      s.add("decisions", docs.len() as u64);
+      s.add("decisions:pass", np as u64);
+
+      // ---- correspondence: the model of the columns and of filters.rs -----------------------
+      let m = drv.call("C08", json!({"op": "eval", "schema": schema_json, "docs": docs, "filter": f}));
+      if m["ok"] != json!(true) {
+        s.disagree("driver", &json!({"schema": schema_json, "docs": docs, "filters": [f]}), json!(real_pass), m.clone());
+        continue;
+      }
+      let col: Vec<bool> = m["col"].as_array().map(|a| a.iter().map(|b| b.as_bool().unwrap_or(false)).collect()).unwrap_or_default();
+      let spec_m: Vec<bool> = m["spec"].as_array().map(|a| a.iter().map(|b| b.as_bool().unwrap_or(false)).collect()).unwrap_or_default();
+      let single: Vec<bool> = m["single"].as_array().map(|a| a.iter().map(|b| b.as_bool().unwrap_or(false)).collect()).unwrap_or_default();
+      let plain = m["plain"].as_bool().unwrap_or(false);
+      if col.len() != docs.len() || spec_m.len() != docs.len() || single.len() != docs.len() {
+        s.disagree("driver-shape", &json!({"schema": schema_json, "docs": docs, "filters": [f]}), json!(real_pass), m.clone());
+        continue;
+      }
+      for (k, d) in docs.iter().enumerate() {
+        if col[k] != real_pass[k] {
+          s.disagree("Col.passes∘flatten", &small(d), json!({"passes": real_pass[k]}), json!({"col": col[k], "spec": spec_m[k], "single": single[k]}));
+        }
+        // instance of flatten_sound_partial (model vs model): must never fail
+        if single[k] && plain && col[k] != spec_m[k] {
+          s.disagree("theorem-instance flatten_sound_partial", &small(d), json!({"passes": real_pass[k]}), json!({"col": col[k], "spec": spec_m[k]}));
+        }
+        if single[k] == multi[k] {
+          s.disagree("singleCarrier-vs-oracle", &small(d), json!({"several_parents": multi[k]}), json!({"single": single[k]}));
+        }
+        // ---- finder: the documented semantics on the tree, harness oracle, no model -----------
+        let want = spec_passes(&schema, d, f);
+        if want != spec_m[k] {
+          s.disagree("Spec.passes-vs-oracle", &small(d), json!({"oracle": want}), json!({"spec": spec_m[k]}));
+        }
+        if real_pass[k] != want {
+          let sig = mismatch_sig(&schema, d, f);
+          s.fail(
+            sig,
+            if want { "the document satisfies the filter by the documented semantics but is not returned" } else { "the document is returned although it does not satisfy the filter by the documented semantics" },
+            &small(d),
+            json!({"returned": real_pass[k], "documented": want, "parents_with_children": collision_paths(&schema, d).into_iter().collect::<Vec<_>>()}),
+          );
+        }
+      }
+    }
+  }
 }
